@@ -117,14 +117,20 @@ def iteration_job(job):
             "ended": ended, "probes": probes, "runs": [{"raw": x["raw"], "error": x["error"], "first_code": (x["out"][0][0] if x["out"] else None)} for x in results]}
 
 
-def pool(fn, jobs, workers=6):
+def _dispatch(job):
+    kind, payload = job
+    return iteration_job(payload) if kind == "A" else fix_job(payload)
+
+
+def pool(jobs, workers=8):
+    """jobs: [("A", iteration payload) | ("B", fix payload)] — one process pool for both streams."""
     import concurrent.futures as cf
     import multiprocessing as mp
 
     if len(jobs) <= 2:
-        return [fn(j) for j in jobs]
+        return [_dispatch(j) for j in jobs]
     with cf.ProcessPoolExecutor(max_workers=workers, mp_context=mp.get_context("fork")) as ex:
-        return list(ex.map(fn, jobs, chunksize=2))
+        return list(ex.map(_dispatch, jobs, chunksize=1))
 
 
 # ---------------------------------------------------------------------------
@@ -192,6 +198,16 @@ ASSIGN_TEMPLATES = [
     (["try:", "    a{k} = b{k} = int(x)", "except ValueError as e{k}:", "    b{k} = 0"], "b{k}"),
 ]
 FIX_TEMPLATES += [("unused_variable", b, r) for b, r in ASSIGN_TEMPLATES]
+FIX_TEMPLATES += [
+    ("unused_variable", ["ü{k} = x + 1"], "x"),
+    ("unused_variable", ["u{k} = 'é ☃'"], "x"),
+    ("use_fstrings", ["s{k} = 'é %s ☃' % x"], "s{k}"),
+    ("missing_f", ["s{k} = 'é {{x}}'"], "s{k}"),
+    ("unused_variable", ["def inner{k}():", "    v{k} = x", "    return y", "print(inner{k}())"], "x"),
+    ("unused_variable", ["class C{k}:", "    def m(self):", "        v{k} = x", "        return y", "print(C{k}().m())"], "x"),
+    ("unused_variable", ["lam{k} = [i for i in range(2) for j{k} in range(2)]"], "lam{k}"),
+    ("too_many_positional_args", ["t{k} = (callee(1, 2, 3, 4, 5, 6, 7, 8, 9, x, y),", "        x)"], "t{k}"),
+]
 # the replacement attached to unused_ignore reports (remove the comment line / strip the comment)
 FIX_TEMPLATES += [
     ("unused_ignore", ["# static analysis: ignore[bad_unpack]", "print(x)"], "x"),
@@ -242,6 +258,20 @@ def gen_fix_program(rng, k, forced=None):
         lines.append("    return None")
     else:
         lines.append("    return " + ", ".join(rets) + (", z" if pre == ["    z = y"] else ""))
+    ctx = rng.choice(["plain", "plain", "tabs", "method", "nested", "decorated"]) if forced is None else "plain"
+    i0 = lines.index("def target(x, y):")
+    fn = lines[i0:]
+    if ctx == "tabs":
+        fn = [("\t" * ((len(l) - len(l.lstrip(" "))) // 4) + l.lstrip(" ")) if l.strip() else l for l in fn]
+        if any("\'\'\'" in l for l in fn) or any((len(l) - len(l.lstrip(" "))) % 4 for l in lines[i0:]):
+            fn = lines[i0:]
+    elif ctx == "method":
+        fn = ["class Holder:", "    @staticmethod"] + ["    " + l if l.strip() else l for l in fn] + ["target = Holder.target"]
+    elif ctx == "nested":
+        fn = ["def outer():"] + ["    " + l if l.strip() else l for l in fn] + ["    return target", "target = outer()"]
+    elif ctx == "decorated":
+        fn = ["def deco(fn):", "    return fn", "@deco"] + fn
+    lines = lines[:i0] + fn
     if forced is None and rng.random() < 0.35:
         # the fixable statement is the last statement of the file (with / without a final newline)
         body3, ret3 = rng.choice(ASSIGN_TEMPLATES[:11])
@@ -436,7 +466,7 @@ def run(tier: str, replay: str | None = None):
                 fix_cases.append((c["code"], c["fix_lines"]))
             else:
                 iter_cases.append((c["text"], c["cfg"]))
-        n_iter = 70 if tier == "quick" else 400
+        n_iter = 110 if tier == "quick" else 500
         for i in range(n_iter):
             iter_cases.append(("\n".join(gen_program(rng)) + "\n", BASE_CFG))
         for i in range(3 if tier == "quick" else 12):
@@ -444,11 +474,12 @@ def run(tier: str, replay: str | None = None):
             iter_cases.append((f"import os\ndef f{k}():\n    print(undef_{k})  {IGNORE}[bad_unpack]\n    return os.sep\n", UNUSED_ON_CFG))
         for i, t in enumerate(FIX_TEMPLATES):
             fix_cases.append(gen_fix_program(rng, i, forced=t))
-        for i in range(110 if tier == "quick" else 900):
+        for i in range(220 if tier == "quick" else 1100):
             fix_cases.append(gen_fix_program(rng, 100 + i))
 
     # ---- part A: the add-ignores iteration --------------------------------
-    res_a = pool(iteration_job, [(t, c, LIMIT) for t, c in iter_cases])
+    res_all = pool([("A", (t, c, LIMIT)) for t, c in iter_cases] + [("B", fc) for fc in fix_cases])
+    res_a, res_b = res_all[: len(iter_cases)], res_all[len(iter_cases):]
     # the model is run one step at a time on the raw stream of *that* run (the order in which the checker
     # reports e.g. unused variables may differ between runs: set iteration, C10's subject), and the
     # "raw stream moves down with its lines" assumption is checked separately as a multiset equality
@@ -598,7 +629,6 @@ def run(tier: str, replay: str | None = None):
                             "candidate_finding": fid, "model_agrees_with_impl": agree})
 
     # ---- part B: node replacements ------------------------------------------
-    res_b = pool(fix_job, fix_cases)
     apply_lines, apply_meta = [], []
     for (tcode, lines), r in zip(fix_cases, res_b):
         if r["error"] and not r["steps"]:
